@@ -75,7 +75,7 @@ def r6(fx):
         m = reg.Matrix([reg.Row([0] * 11) for _ in range(11)])
         for scale, border, want in ((0, 1, 'raises ValueError'), (-1, 1, 'raises ValueError'), (0.5, 1, 'raises ValueError'),
                                     (1, -1, 'raises ValueError'), (1, 1.5, 'raises ValueError'), (2, 0.5, 'raises ValueError'),
-                                    (1, 0, 'ok'), (1.9, None, 'ok'), (1, 2.0, 'ok')):
+                                    (1, 0, 'ok'), (1.9, None, 'ok'), (3, 2, 'ok')):
             try:
                 f(m, (11, 11), scale, border)
                 got = 'ok'
